@@ -1,6 +1,7 @@
 """C14 -- software versions are ordered numerically, component by component."""
+import os
 import sys
-from pyvc.driver import main
+from pyvc.driver import main, native_bounded, VERIF
 from contracts import c14_version
 
 
@@ -18,6 +19,16 @@ def custom_vt_bounded(ip, runner):
                            'Software._version_tuple')]
 
 
+def custom_version_filter(ip, runner):
+    """the statement's last clause: algorithms are marked available / not yet available exactly according to the numeric order of the banner version
+    against the first-appeared versions of the database -- observed at the recommendation pass (the stand-in is shared with C13)"""
+    from contracts import c13_recs
+    code = c13_recs.NATIVE % {'native': os.path.join(VERIF, 'native')}
+    return [native_bounded(runner, 'version-filter', 'an algorithm is treated as available in the identified version iff version >= its first-appeared version (numeric, component-wise): removals name only algorithms the version knows, additions only algorithms it already has',
+                           code, 'banners of OpenSSH/Dropbear/libssh at every first-appeared version in the database, its predecessor and successor, plus 10.0 / 9.9 / 0.10.6 / 0.7.0',
+                           'Algorithms.get_recommendations (version filter)')]
+
+
 def custom_cmp_bounded(ip, runner):
     from pyvc.driver import native_bounded
     return [native_bounded(runner, 'Software.compare_version', 'sign of component-wise numeric comparison whenever the numeric parts differ',
@@ -33,7 +44,7 @@ def build(chk, ip, runner):
                        'its None result for non-dotted strings and the regex capture model are bounded / assumed')
     chk.units = c14_version.units() + c14_version.vt_units()
     chk.stubs = c14_version.stubs()
-    chk.customs = [custom_crosscheck, custom_vt_bounded, custom_cmp_bounded]
+    chk.customs = [custom_crosscheck, custom_vt_bounded, custom_cmp_bounded, custom_version_filter]
     chk.assumptions = ['version strings are ASCII and contain no newline (banners are sanitised to printable ASCII before Software.parse)',
                        "re.match is modelled per pattern (pyvc/lib.py RE_MODELS); \\d is [0-9]"]
     chk.not_decided = ['versions with more than 4 components (outside the property\'s quantifier)',
